@@ -1645,8 +1645,6 @@ class Evaluator(object):
                         if good:
                             continue
                         key = 'valid-not-reflected:%s:%s:%s' % (acls, skey, desc.split('=')[0].split(' ')[0])
-                        if verdict[0] == 'valid:with-not-optional':
-                            key = 'not-optional-treated-as-not-nullable'
                         if verdict[0] == 'valid:ref':
                             k = autodetected_ref(out, site, name)
                             if k is not None and attrs_of(out['params'][k]).get('name') != opts[0]:
